@@ -677,6 +677,7 @@ def check_csv(ctx, produced):
            'one dataframe row per record, in the order of the blob'
            if ok_order else
            'blob_to_df does not iterate results_blob in order')
+    check_column_names(ctx, fi, bd)
     # confidence key choice in _run_mapping
     rm = db.fn('cli.from_specified_markers:_run_mapping')
     cfgm = cfg_of(rm)
@@ -731,3 +732,123 @@ def _starts_with_hash(t):
     if t[0] == 'phi':
         return all(_starts_with_hash(a) for a in t[1])
     return False
+
+
+def _fstring_parts(fi, expr, at):
+    """the interpolated parts of the f-string an expression denotes
+    (directly, or through the single definition of a local)"""
+    rd = rd_of(fi)
+    e = expr
+    for _ in range(3):
+        if isinstance(e, ast.JoinedStr):
+            return [p for p in e.values if isinstance(p, ast.FormattedValue)]
+        if isinstance(e, ast.Name):
+            ds = [d for d in rd.reaching(e.id, at)]
+            if len(ds) == 1 and getattr(ds[0], 'value', None) is not None:
+                at = ds[0].node
+                e = ds[0].value
+                continue
+        break
+    return None
+
+
+def check_column_names(ctx, csv_fn, df_fn):
+    """the CSV header is built in two places: blob_to_df names the columns
+    `<level name>_<field>` and blob_to_csv renames the confidence column by
+    spelling that name again.  Both must build the level part in the same
+    way (level_to_name of the level) and the old name must end in the key
+    of the record field (confidence_key), the new one in the label."""
+    rule = 'R-SAMEVAL/csv-column-names'
+    # columns produced
+    cfg = cfg_of(df_fn)
+    rd = rd_of(df_fn)
+    ex = Expander(df_fn)
+    n_cols = 0
+    for node in cfg.nodes:
+        if node.kind != 'stmt' or node.id not in rd.live or not isinstance(
+                node.ast, ast.Assign):
+            continue
+        tg = node.ast.targets[0]
+        if not isinstance(tg, ast.Subscript):
+            continue
+        parts = _fstring_parts(df_fn, tg.slice, node.id)
+        if not parts:
+            continue
+        n_cols += 1
+        t = ex.expand(parts[0].value, node.id)
+        ok = T.call_name(t) == 'level_to_name'
+        ctx.ob(rule, f'blob_to_df:{_lit(tg.slice, df_fn, node.id)}',
+               df_fn.loc(node.ast), ok,
+               'column named after the readable level name' if ok else
+               f'column name starts with {fmt_term(t)[:60]}, not with '
+               'level_to_name(level): the columns of one level get '
+               'different prefixes')
+    if n_cols < 3:
+        raise AnalysisError('blob_to_df: only {n_cols} column names found')
+    # the rename
+    cfg = cfg_of(csv_fn)
+    rd = rd_of(csv_fn)
+    ex = Expander(csv_fn)
+    mapper = None
+    for n in ast.walk(csv_fn.node):
+        if isinstance(n, ast.Call) and isinstance(n.func, ast.Attribute) \
+                and n.func.attr == 'rename':
+            for kw in n.keywords:
+                if kw.arg in ('mapper', 'columns') and isinstance(
+                        kw.value, ast.Name):
+                    mapper = kw.value.id
+            if mapper is None and n.args and isinstance(
+                    n.args[0], ast.Name):
+                mapper = n.args[0].id
+    found = False
+    for node in cfg.nodes:
+        if node.kind != 'stmt' or node.id not in rd.live or not isinstance(
+                node.ast, ast.Assign):
+            continue
+        tg = node.ast.targets[0]
+        if not (isinstance(tg, ast.Subscript) and isinstance(
+                tg.value, ast.Name) and tg.value.id == mapper):
+            continue
+        found = True
+        for what, expr, suffix in (('old', tg.slice, 'confidence_key'),
+                                   ('new', node.ast.value,
+                                    'confidence_label')):
+            parts = _fstring_parts(csv_fn, expr, node.id)
+            ok = False
+            detail = 'is not an f-string `<level name>_<key>`'
+            if parts and len(parts) == 2:
+                # expand at the definition of the f-string
+                at = node.id
+                if isinstance(expr, ast.Name):
+                    at = [d for d in rd.reaching(expr.id, node.id)][0].node
+                t0 = ex.expand(parts[0].value, at)
+                t1 = ex.expand(parts[1].value, at)
+                ok = T.call_name(t0) == 'level_to_name' \
+                    and t1 == ('param', suffix)
+                detail = (f'is built from {fmt_term(t0)[:50]} and '
+                          f'{fmt_term(t1)[:40]}')
+            ctx.ob(rule, f'blob_to_csv:rename:{what}', csv_fn.loc(node.ast),
+                   ok,
+                   f'the {what} column name is <level_to_name(level)>_'
+                   f'<{suffix}>, the way blob_to_df spells it' if ok else
+                   f'the {what} name of the renamed confidence column '
+                   f'{detail}; blob_to_df names the column '
+                   f'<level_to_name(level)>_<field>, so the rename misses '
+                   'it (and the filter that follows drops the column) '
+                   'whenever the two spellings differ')
+    if not found:
+        ctx.fail(rule, 'blob_to_csv:rename', csv_fn.loc(),
+                 'the renaming of the confidence column was not found')
+
+
+def _lit(expr, fi, at):
+    rd = rd_of(fi)
+    e = expr
+    if isinstance(e, ast.Name):
+        ds = rd.reaching(e.id, at)
+        if len(ds) == 1 and getattr(ds[0], 'value', None) is not None:
+            e = ds[0].value
+    if isinstance(e, ast.JoinedStr):
+        return ''.join(str(p.value) if isinstance(p, ast.Constant)
+                       else '{}' for p in e.values)
+    return type(e).__name__
